@@ -21,7 +21,7 @@ NSHARDS = 16
 
 def plan(tier, seed):
     q = tier == "quick"
-    return [{"shard": i, "nshards": NSHARDS, "nstreams": 4 if q else 12, "maxlen2": 160 if q else 330, "nrand": 300 if q else 4000} for i in range(NSHARDS)]
+    return [{"shard": i, "nshards": NSHARDS, "nstreams": 5 if q else 13, "maxlen2": 160 if q else 330, "nrand": 300 if q else 4000} for i in range(NSHARDS)]
 
 
 def make_frames(rnd, peer, kinds):
@@ -40,6 +40,10 @@ def make_frames(rnd, peer, kinds):
             fr.append(("a", peer.frame("8", None, [(11, "b%d" % rnd.randrange(1000)), (58, "T" * 300), (17, "e1")])))
         elif k == "small":
             fr.append(("a", peer.frame("D", None, [(11, "s")])))
+        elif k == "jfail":
+            # a valid application frame whose journal row is refused (the harness makes persist_msg fail for it, as a full disk would): it
+            # was handed to the application, it is counted, the failure is logged - and the frames behind it in the same read are handled
+            fr.append(("j", peer.frame("D", None, [(11, "jfail%d" % rnd.randrange(1000)), (55, "X")])))
         elif k == "bad34":
             # well framed, but the session layer cannot read its header (MsgSeqNum is not a number): the session ends there (since repo fix
             # for C11's "unreadable header" finding; before it: logged and dropped), whatever the chunking
@@ -86,6 +90,15 @@ async def run_partition(acc, clock, stream, frames, cuts, garb_regions, cid, sid
     ep = E.new_endpoint("generic", "ME", "PEER", j, name="ME")
     E.attach(ep, clock, ConnectionRole.ACCEPTOR)
     E.start_reader(ep)
+    if any(k == "j" for k, _ in frames):
+        import sqlite3
+        real_persist = j.persist_msg
+
+        def persist(msg, session, direction):
+            if b"\x0111=jfail" in msg:
+                raise sqlite3.OperationalError("database or disk is full")
+            return real_persist(msg, session, direction)
+        j.persist_msg = persist
     logon = fixwire.msg("A", 1, "PEER", "ME", [(98, 0), (108, 30)])
     w = {"stream_id": sid, "cuts": list(cuts), "stream_len": len(stream), "garbage": garb_regions,
          "frame_starts": [], "stream": fixwire.show(stream)[:600]}
@@ -150,7 +163,7 @@ async def run_partition(acc, clock, stream, frames, cuts, garb_regions, cid, sid
         all_frames = frames
         if ends_at is not None:
             frames = frames[:ends_at]
-        exp_app = [fixwire.get(fixwire.parse(fb), 11) for k, fb in frames if k == "a"]
+        exp_app = [fixwire.get(fixwire.parse(fb), 11) for k, fb in frames if k in ("a", "j")]
         got_app = [r[1] for r in ep.rx]
         acc.oracle("delivery")
         if got_app != exp_app:
@@ -161,7 +174,7 @@ async def run_partition(acc, clock, stream, frames, cuts, garb_regions, cid, sid
             return
         acc.oracle("journal")
         rows = j.recover_messages(ep._session, D.INBOUND, 0, sys.maxsize)
-        exp_rows = [logon] + [fb for k_, fb in frames if k_ != "x"]
+        exp_rows = [logon] + [fb for k_, fb in frames if k_ not in ("x", "j")]
         if rows != exp_rows:
             acc.violation(classify("inbound-journal-differs"), f"{len(rows)} rows vs {len(exp_rows)} frames sent", w, cid)
             return
@@ -259,6 +272,7 @@ def run_shard(spec, acc):
                   ["grp"], ["nos", "hb"], ["small", "small", "small"], ["hb", "nos"], ["grp", "small"], ["tr", "nos"]]
         combos[2:2] = [["mk", "small"]]       # a value that contains the frame-start text, under every 1-/2-cut partition
         combos[1:1] = [["zpad", "small"]]     # a zero-padded BodyLength, under every 1-/2-cut partition
+        combos[2:2] = [["jfail", "small"]]    # a frame whose journal row is refused, under every 1-/2-cut partition
         idx = 0
         for si in range(spec["nstreams"]):
             peer = E.Peer("PEER", "ME")
@@ -369,7 +383,7 @@ def run_shard(spec, acc):
             if "zpad" in kinds:
                 acc.add("streams_with_a_zero_padded_bodylength")
             if rnd.random() < 0.25:
-                kinds.insert(rnd.randrange(len(kinds) + 1), "bad34")
+                kinds.insert(rnd.randrange(len(kinds) + 1), rnd.choice(["bad34", "jfail", "jfail"]))
                 kinds.append(rnd.choice(["nos", "small"]))
                 acc.add("streams_with_a_frame_the_session_layer_chokes_on")
             if rnd.random() < 0.1:
